@@ -337,6 +337,13 @@ def coq_eval(workdir: Path, preamble: str, exprs: list[str], shard: int = 300, t
         pr, p, idxs = running.pop(0)
         out, err = pr.communicate()
         outputs[p] = (pr.returncode, out, err, idxs)
+    for p, (rc, out, err, idxs) in list(outputs.items()):
+        if rc == 124:     # `timeout` expired (machine under load): evaluate this shard once more, alone, with three times the budget
+            pr = subprocess.run(['timeout', str(3 * timeout), 'coqc', '-Q', str(COQ), 'MrVerif', '-w',
+                                 '-notation-overridden,-deprecated-hint-without-locality,-ambiguous-paths', p.name],
+                                cwd=workdir, capture_output=True, text=True)
+            rc, out, err = pr.returncode, pr.stdout, pr.stderr
+            outputs[p] = (rc, out, err, idxs)
     for p, (rc, out, err, idxs) in outputs.items():
         if rc != 0:
             # find which definition failed from the error location, mark all of the shard as failed
